@@ -148,6 +148,9 @@ def ctlOp (s : RState) (t : List String) : RState :=
     -- `Sim::crash(regex)`: the selected hosts in registration order
     let xs := ((hs.splitOn ",").map hostOf).mergeSort (· ≤ ·)
     { s with w := xs.foldl (fun w x => w.crash x) w, expectObs := some "ok" }
+  | ["bounce_set", hs] =>
+    let xs := ((hs.splitOn ",").map hostOf).mergeSort (· ≤ ·)
+    { s with w := xs.foldl (fun w x => w.bounce x) w, expectObs := some "ok" }
   | ["links"] => { s with expectObs := some s!"links {w.linksView}" }
   | ["deliverall", a, b] =>
     -- `LinkIter::deliver_all`: `SentRef::deliver` on every in-flight message of the link, in queue order
